@@ -6,6 +6,7 @@ import PenneModel.Scope.Vars
 import PenneModel.Lex.Model
 import PenneModel.Lit.Model
 import PenneModel.Sem.Parse
+import PenneModel.Sem.Layout
 /-
   Model driver: one request per line on stdin (`OP<TAB>payload`), one answer per line on stdout.
   Only model files are imported (no Mathlib, no proof files), so this links as a native executable.
@@ -114,6 +115,18 @@ def handle (op payload : String) : String :=
       | some p => Sem.showResult (Sem.run p 200000)
       | none => "bad-program"
     | none => "bad-request"
+  | "sizeof" =>
+    match Sexp.parse payload with
+    | some sx => match Layout.ofSexp 64 sx with
+      | some t => toString (Layout.sizeOf t)
+      | none => "bad-type"
+    | none => "bad-request"
+  | "wordsize" =>
+    match Sexp.parse payload with
+    | some (.list xs) => match xs.mapM Sexp.toNat? with
+      | some sizes => toString (Layout.typerWordSize sizes)
+      | none => "bad-request"
+    | _ => "bad-request"
   | "C09" => c09 payload
   | "lex" =>
     match Sexp.parse payload with
